@@ -132,6 +132,7 @@ namespace BitSerializer::Csv::Detail
 			size_t doubleQuotesCount = 0;
 			size_t endValuePos = totalSize;
 			size_t precedingCrPos = std::string::npos;
+			bool isEndedByDelimiter = false;
 
 			while (mCurrentPos < totalSize)
 			{
@@ -145,6 +146,7 @@ namespace BitSerializer::Csv::Detail
 				{
 					endValuePos = mCurrentPos;
 					++mCurrentPos;
+					isEndedByDelimiter = true;
 					break;
 				}
 				// End of line (can be CRLF or just LF)
@@ -168,8 +170,9 @@ namespace BitSerializer::Csv::Detail
 			// Extract values even line is empty (CSV can consist only one column, some values can be empty)
 			out_values.emplace_back(startValuePos, endValuePos - startValuePos, doubleQuotesCount != 0);
 
-			// Handle end of file (RFC: The last record in the file may or may not have an ending line break)
-			if (mCurrentPos == mSourceString.size())
+			// Handle end of file (RFC: The last record in the file may or may not have an ending line break),
+			// but when the text ends with a delimiter, the record still has one more (empty) value
+			if (mCurrentPos == mSourceString.size() && !isEndedByDelimiter)
 			{
 				break;
 			}
